@@ -22,14 +22,27 @@ cd /verif
 git -C /repo worktree remove --force "$V"
 echo "import: $IMPORT"; echo "tests with change: $TESTS"; echo "demo without change rc=$RC_WITHOUT, with change rc=$RC_WITH"
 # run our checks against /repo with the change applied, then undo
-git -C /repo apply "$OUT/patch.diff" || { echo "cannot apply to /repo"; exit 3; }
+# (SCRATCH=1: on a scratch copy instead, for use while other work is reading /repo; tools/seed_matrix.sh does the real thing later)
 DET=""
+if [ "${SCRATCH:-0}" = "1" ]; then
+  T=$(mktemp -d /dev/shm/sa_seed.XXXXXX); cp -r /repo/norminette "$T/norminette"; find "$T" -name __pycache__ -prune -exec rm -rf {} +
+  (cd "$T" && patch -s -p1 < "$OUT/patch.diff") || { echo "cannot apply to the copy"; exit 3; }
+  for c in "$PROP" "$@"; do
+    SA_REPO="$T" SA_EVIDENCE_DIR=/tmp/ev_$ID /venv/bin/python -m sa check "$c" > "$OUT/check_$c.log" 2>&1; rc=$?
+    sed -i "s|$T|<copy>|g" "$OUT/check_$c.log"
+    echo "check $c -> rc=$rc : $(grep -v KNOWN "$OUT/check_$c.log" | grep -E '^  R-|ANALYSIS' | head -2 | cut -c1-220)"
+    DET="$DET $c:$rc"
+  done
+  rm -rf "$T" /tmp/ev_$ID
+else
+git -C /repo apply "$OUT/patch.diff" || { echo "cannot apply to /repo"; exit 3; }
 for c in "$PROP" "$@"; do
   SA_EVIDENCE_DIR=/tmp/ev_$ID /venv/bin/python -m sa check "$c" > "$OUT/check_$c.log" 2>&1; rc=$?
   echo "check $c -> rc=$rc : $(grep -v KNOWN "$OUT/check_$c.log" | grep -E '^  R-|ANALYSIS' | head -2 | cut -c1-220)"
   DET="$DET $c:$rc"
 done
 git -C /repo checkout -- . ; rm -rf /tmp/ev_$ID
+fi
 git -C /repo status --short | head -3
 cat > "$OUT/meta.json" <<JSON
 {"seed_id": "$ID", "property": "$PROP", "tests_with_change": "$TESTS", "demo_rc_without_change": $RC_WITHOUT,
